@@ -9,7 +9,7 @@ package starlark
 //verif:config generic posix64 posix64-nommap
 //verif:configq generic posix64
 func zzH10_addsub() {
-	B := zzParam("bits", 66, 70)
+	B := zzParam("bits", 40, 70)
 	x, xv := zzSymInt("x", B)
 	y, yv := zzSymInt("y", B)
 	sum, sc, ok1 := zzIntValue(x.Add(y))
@@ -27,7 +27,7 @@ func zzH10_addsub() {
 //verif:config generic posix64 posix64-nommap
 //verif:configq generic posix64
 func zzH10_cmpsign() {
-	B := zzParam("bits", 66, 70)
+	B := zzParam("bits", 40, 70)
 	x, xv := zzSymInt("x", B)
 	y, yv := zzSymInt("y", B)
 	c, err := x.Cmp(y, 0)
@@ -84,7 +84,7 @@ func zzH10_rangeLen() {
 // zzH10_rangeIndex: for |start|,|stop|,|step| < 2^B the i-th element is start + i*step
 // and lies inside the range (functional equality in 128-bit arithmetic).
 func zzH10_rangeIndex() {
-	B := uint(zzParam("magnitude_bits", 12, 15))
+	B := uint(zzParam("magnitude_bits", 6, 12))
 	start, stop, step, i := zzI64("start"), zzI64("stop"), zzI64("step"), zzI64("i")
 	lim := int64(1) << B
 	zzAssume(zzAnd(start > -lim, start < lim))
